@@ -297,6 +297,10 @@ pub enum AOp {
     LenderWithdraw { frac: u32 },
     Repay { frac: u32 },
     BorrowMore { frac: u32 },
+    /// the global fee admin names a new fee wallet (`edit_global_fee_state`); `propagate` = somebody also runs the
+    /// permissionless `propagate_fee_state` for the group afterwards. From now on the canonical destination of the
+    /// program fees is the NEW wallet's token account, whatever the group's cached copy says.
+    RotateFeeWallet { propagate: bool },
 }
 
 #[derive(Clone, Debug, Serialize, Deserialize)]
@@ -320,6 +324,8 @@ pub struct AStats {
     pub all_zero: u64,
     pub moved_all3: u64,
     pub subst_cells: u64,
+    pub rotations: u64,
+    pub collects_after_unpropagated_rotation: u64,
     pub witnesses: Vec<Value>,
 }
 
@@ -367,6 +373,7 @@ fn a_op_strategy() -> impl Strategy<Value = AOp> {
         1 => (0u32..=65_536).prop_map(|frac| AOp::LenderWithdraw { frac }),
         1 => (0u32..=65_536).prop_map(|frac| AOp::Repay { frac }),
         1 => (0u32..=65_536).prop_map(|frac| AOp::BorrowMore { frac }),
+        2 => prop::bool::weighted(0.4).prop_map(|propagate| AOp::RotateFeeWallet { propagate }),
     ]
 }
 
@@ -606,6 +613,9 @@ pub fn run_a(c: &ACase, st: &mut AStats) -> Result<(), Fail> {
     }
     st.built = true;
     let fkey = w.banks[fb].key;
+    // token accounts of fee wallets that the global fee admin has since replaced
+    let mut retired: Vec<Pubkey> = vec![];
+    let mut unpropagated = false;
     for op in &c.ops {
         match op {
             AOp::Wait { secs } => {
@@ -646,8 +656,59 @@ pub fn run_a(c: &ACase, st: &mut AStats) -> Result<(), Fail> {
                 let a = ((v as u128 * *frac as u128) >> 16) as u64;
                 let _ = w.vm.exec(&w.ix_borrow(borrower.accts[0], borrower.auth, fb, borrower.tokens[fb], a));
             }
+            AOp::RotateFeeWallet { propagate } => {
+                use anchor_lang::{InstructionData, ToAccountMetas};
+                let new_wallet = kp("c19_rotated_fee_wallet", retired.len() as u64);
+                w.vm.set(new_wallet, wallet_acct(1_000_000_000));
+                let ix = mfi(
+                    marginfi::accounts::EditFeeState { global_fee_admin: w.roles.fee_admin, fee_state: w.fee_state }.to_account_metas(Some(true)),
+                    marginfi::instruction::EditGlobalFeeState {
+                        admin: w.roles.fee_admin,
+                        fee_wallet: new_wallet,
+                        bank_init_flat_sol_fee: w.spec.bank_init_flat_sol_fee,
+                        liquidation_flat_sol_fee: w.spec.liq_flat_sol_fee,
+                        program_fee_fixed: w_mill(w.spec.program_fee_fixed),
+                        program_fee_rate: w_mill(w.spec.program_fee_rate),
+                        liquidation_max_fee: w_mill(w.spec.liq_max_fee),
+                    }
+                    .data(),
+                );
+                if w.vm.exec(&ix).is_ok() {
+                    st.rotations += 1;
+                    retired.push(w.banks[fb].fee_ata);
+                    w.fee_wallet = new_wallet;
+                    for i in 0..w.banks.len() {
+                        let info = w.banks[i].clone();
+                        let k = ata(&new_wallet, &info.mint, &info.token_program);
+                        if w.vm.get(&k).is_none() {
+                            let a = token_acct_for(&w.vm, &info.mint, &info.token_program, new_wallet, 0);
+                            w.vm.set(k, a);
+                        }
+                        w.banks[i].fee_ata = k;
+                    }
+                    unpropagated = !*propagate;
+                    if *propagate {
+                        let _ = w.vm.exec(&w.ix_propagate_fee_state());
+                    }
+                }
+            }
             AOp::Collect => {
                 let pre = w.vm.clone();
+                // whatever the current wallet's collection does, the token account of a RETIRED fee wallet is never a
+                // valid destination any more
+                for old in &retired {
+                    let mut ix = w.ix_collect_fees(fb);
+                    ix.accounts[7].pubkey = *old;
+                    let mut probe = pre.clone();
+                    let before = token_amount(probe.data(old));
+                    st.subst_cells += 1;
+                    if probe.exec(&ix).is_ok() && token_amount(probe.data(old)) != before || { let mut p2 = pre.clone(); p2.exec(&ix).is_ok() } {
+                        return fail("collect:retired-fee-wallet", format!("collect_bank_fees accepted the token account {old} of a fee wallet that the global fee admin has replaced (group cache refreshed since: {})", !unpropagated));
+                    }
+                }
+                if unpropagated {
+                    st.collects_after_unpropagated_rotation += 1;
+                }
                 let r = w.vm.exec(&w.ix_collect_fees(fb));
                 if r.is_err() {
                     st.collects_err += 1;
@@ -1737,6 +1798,8 @@ fn run_part_a(ctx: &Ctx, cases: u32) -> Report {
                 }
                 rep.label_n("A:collect-ok", st.collects_ok);
                 rep.label_n("A:collect-err", st.collects_err);
+                rep.label_n("A:fee-wallet-rotations", st.rotations);
+                rep.label_n("A:collects-after-unpropagated-rotation", st.collects_after_unpropagated_rotation);
                 rep.label_n("A:collect-binding", st.binding);
                 rep.label_n("A:collect-binding-fractional", st.binding_fractional);
                 rep.label_n("A:collect-nothing-moved", st.all_zero);
